@@ -267,6 +267,13 @@ def catalogue():
         add("to_linecollection:%s" % pe, (lambda p: (lambda g: g.to_linecollection(periodic_elements=p)))(pe), jit_off=False)
     add("to_geodataframe:exclude:robinson", lambda g: g.to_geodataframe(periodic_elements="exclude", projection=_proj("robinson0")), jit_off=False)
     add("to_geodataframe:exclude:nocache", lambda g: g.to_geodataframe(periodic_elements="exclude", cache=False, override=True), jit_off=False)
+    # three-call histories as one step: a cached build, then a build with other arguments that bypasses the cache; what is
+    # observed afterwards (the plain cached calls above) must still be what a fresh grid gives
+    add("to_geodataframe:exclude_then_split_nocache", lambda g: (g.to_geodataframe(periodic_elements="exclude"), g.to_geodataframe(periodic_elements="split", cache=False))[1], jit_off=False)
+    add("to_geodataframe:split_then_geopandas_ignore_nocache", lambda g: (g.to_geodataframe(periodic_elements="split"), g.to_geodataframe(periodic_elements="ignore", engine="geopandas", cache=False))[1], jit_off=False)
+    add("to_geodataframe:ignore_then_robinson_nocache", lambda g: (g.to_geodataframe(periodic_elements="ignore"), g.to_geodataframe(periodic_elements="exclude", projection=_proj("robinson0"), cache=False))[1], jit_off=False)
+    add("to_polycollection:exclude_then_ignore_nocache", lambda g: (g.to_polycollection(periodic_elements="exclude"), g.to_polycollection(periodic_elements="ignore", cache=False))[1], jit_off=False)
+    add("to_linecollection:exclude_then_ignore_nocache", lambda g: (g.to_linecollection(periodic_elements="exclude"), g.to_linecollection(periodic_elements="ignore", cache=False))[1], jit_off=False)
     add("to_polycollection:exclude:robinson", lambda g: g.to_polycollection(periodic_elements="exclude", projection=_proj("robinson0")), jit_off=False)
     add("to_polycollection:ignore:mollweide60", lambda g: g.to_polycollection(periodic_elements="ignore", projection=_proj("mollweide60")), jit_off=False)
     add("to_linecollection:exclude:robinson", lambda g: g.to_linecollection(periodic_elements="exclude", projection=_proj("robinson0")), jit_off=False)
